@@ -306,6 +306,10 @@ class Check:
                                       "tie_breaks": self.tie_breaks()})
             lines.append("VIOLATION property=%s replay=%s no-failing-input-found" % (self.prop, path))
             rc = 1
+        if rc == 0:
+            stale = os.path.join(REPLAYS, "%s-%s.json" % (self.prop, self.seed))
+            if os.path.exists(stale):
+                os.remove(stale)
         self.write_evidence(rc)
         for l in lines:
             print(l, flush=True)
